@@ -435,6 +435,11 @@ def scen_evil_leaf(rec, rng, single, variadic, state, args):
     sname = rng.choice((None, "T"))
     ann = jaxtyping.PyTree[L] if sname is None else jaxtyping.PyTree[L, sname]
     k = rng.randint(1, 2 * m + 1)
+    # the is_leaf callback runs on inner nodes as well, so any k may fall into the flatten
+    # phase (an exception through jaxlib's C++ flatten): same per-process budget as above
+    if _FLATTEN_FAULTS["n"] >= MAX_FLATTEN_FAULTS_PER_PROCESS:
+        return scen_pytree(rec, rng, single, variadic, state, args)
+    _FLATTEN_FAULTS["n"] += 1
     exc = rng.choice((Injected, InjectedAbort))
     _EvilMeta.plan.update(k=k, exc=exc, n=0)
 
@@ -452,9 +457,20 @@ def scen_evil_leaf(rec, rng, single, variadic, state, args):
         _EvilMeta.plan.update(k=0)
 
 
+_FLATTEN_FAULTS = {"n": 0}
+MAX_FLATTEN_FAULTS_PER_PROCESS = 600
+
+
 def scen_faulty_flatten(rec, rng, single, variadic, state, args):
     import jaxtyping
 
+    # Every exception that leaves a custom flatten function through jaxlib's C++
+    # tree_flatten leaks one unit of CPython 3.12's C-recursion budget (measured: ~1500 of
+    # them make every later C-level recursive call fail with RecursionError - nothing to do
+    # with jaxtyping). The number of such injections per process is therefore capped.
+    if _FLATTEN_FAULTS["n"] >= MAX_FLATTEN_FAULTS_PER_PROCESS:
+        return scen_pytree(rec, rng, single, variadic, state, args)
+    _FLATTEN_FAULTS["n"] += 1
     ensure_faulty_registered()
     n1 = rng.choice(NAMES5)
     s = single.get(n1, 3)
